@@ -1590,8 +1590,9 @@ _vbi_cache_put_page		(vbi_cache *		ca,
 	goto failure;
 
  replace:
-	if (likely (memory_available == memory_needed
-		    && 1 == death_count)) {
+	if (likely (1 == death_count
+		    && (long) cache_page_size (death_row[0])
+		       == memory_needed)) {
 		/* Usually we can replace a single page of same size. */
 
 		new_cp = death_row[0];
